@@ -1608,11 +1608,12 @@ class Mapping:
                 version in self._mapping[flavor][product])
 
     def apply(self, inProduct, inVersion, flavor="generic"):
-        """apply the mapping"""
-        outProduct, outVersion = self._apply(inProduct, inVersion, flavor)
-        if flavor != "generic" and (outProduct, outVersion) == (inProduct, inVersion):
-            outProduct, outVersion = self._apply(inProduct, inVersion, "generic")
-        return outProduct, outVersion
+        """apply the mapping: the rows for the flavor take precedence over the generic rows"""
+        if flavor != "generic" and not (self._exists(inProduct, inVersion, flavor) or
+                                        self._exists(inProduct, "any", flavor)):
+            # the flavor's table doesn't name this version of the product
+            flavor = "generic"
+        return self._apply(inProduct, inVersion, flavor)
 
     def _apply(self, inProduct, inVersion, flavor):
         """apply the mapping for a particular flavor"""
